@@ -8,6 +8,7 @@ import (
 	"context"
 	"errors"
 	"hash"
+	"strconv"
 	"time"
 )
 
@@ -107,4 +108,11 @@ func BytesCompare(a, b []byte) int {
 		return 1
 	}
 	return 0
+}
+
+// InitStrconv replaces package strconv's initialiser: only the two error values matter to the code
+// under test (the formatting tables are not used by the interpreted paths).
+func InitStrconv() {
+	strconv.ErrRange = errors.New("value out of range")
+	strconv.ErrSyntax = errors.New("invalid syntax")
 }
